@@ -579,7 +579,7 @@ class Node(object):
 
         new_child.parent = self
         self._children[self._children.index(old_child)] = new_child
-        if delete_old:
+        if delete_old and new_child is not old_child:
             Node.delete_node_instance(id=old_child.id)
 
     def shift(self, child, direction: Shift, sib: bool = True):
